@@ -387,14 +387,14 @@ func C13Scenario() *Scenario {
 		}
 		w.Stages = []Stage{
 			{Name: "hostile", Policy: pol, Steps: 150 + 100*t.Pick(3, "len")},
-			{Name: "recover", Quiet: true, MaxSteps: 4000 + 8000*min(1, len(discoveryGVs)), Policy: fair, OnBudget: budget, Do: func(w *World) {
+			{Name: "recover", Quiet: true, MaxSteps: 4000 + 20000*min(1, len(discoveryGVs)), Policy: fair, OnBudget: budget, Do: func(w *World) {
 				hostile = false
 				b.Left = 0
 				w.DiscoveryDown = nil
 				w.EnvOps = func(w *World) []EnvOp { return GCOps(w) }
 				pokeAll(w)
 			}},
-			{Name: "finish", Quiet: true, MaxSteps: 3000 + 8000*min(1, len(discoveryGVs)), Policy: fair, OnBudget: budget,
+			{Name: "finish", Quiet: true, MaxSteps: 3000 + 20000*min(1, len(discoveryGVs)), Policy: fair, OnBudget: budget,
 				Do: func(w *World) { pokeStep = w.step; pokeAll(w) },
 				Check: func(w *World) *Violation {
 					// rejected answers cause no write
